@@ -29,7 +29,7 @@ def gen_recipe(rng):
         if rng.random() < 0.35:
             text = '=' + text
         cells.append([s, col, row, text])
-    return {'nsheets': nsheets, 'cells': cells, 'safety': rng.random() < 0.75}
+    return {'nsheets': nsheets, 'cells': cells, 'safety': rng.random() < 0.75, 'chart_at': rng.choice([None, None, None, 0, 1])}
 
 
 def make_case(rc, k=[0]):
@@ -42,6 +42,13 @@ def make_case(rc, k=[0]):
         ws.title = TITLES[i]
     for s, col, row, text in rc['cells']:
         wb.worksheets[s]['%s%d' % (get_column_letter(col), row)] = text
+    if rc.get('chart_at') is not None:
+        # a chart sheet in the tab order: it is a sheet name but not a worksheet (titles must still be those of the worksheets)
+        from openpyxl.chart import BarChart, Reference
+        cs = wb.create_chartsheet('Chart', rc['chart_at'])
+        ch = BarChart()
+        ch.add_data(Reference(wb.worksheets[0], min_col=1, min_row=1, max_row=2))
+        cs.add_chart(ch)
     k[0] += 1
     path = os.path.join(DIR, 'w%d_%d.xlsx' % (os.getpid(), k[0] % 4))
     wb.save(path)
